@@ -86,6 +86,10 @@ def gen(rng, quick):
         for bad, lab in (("a/x", "enotdir"), ("loop1/x", "eloop"), ("n" * 300, "enametoolong"), ("loop1", "eloop-direct")):
             for dest in (("out", "newdest") if pos != 2 else ("out",)):
                 cs.append(("missing-%s@%d->%s" % (lab, pos, dest), around(bad, pos) + [dest], True))
+    # MANY missing sources (a status that counts them must not wrap to 0 at 256), alone and among valid ones
+    for n in (255, 256, 512):
+        cs.append(("missing-x%d" % n, ["nosuch%03d" % i for i in range(n)] + ["out"], True))
+    cs.append(("missing-x256-among-valid", ["a"] + ["nosuch%03d" % i for i in range(256)] + ["b", "out"], True))
     cs.append(("missing-single", ["missing", "out"], True))
     cs.append(("missing-single-new", ["missing", "newdest"], True))
     # 3. directory without --recursive
@@ -296,7 +300,7 @@ def run(ctx, out):
                 if r.exit != 0:
                     out.corr("R1-valid-control-failed", rep, "exit 0", r.exit)
             o, paths = parse_args(args)
-            if not o["clap_bad"] and ctx.model_ok:
+            if not o["clap_bad"] and ctx.model_ok and not label.startswith("missing-x"):     # (hundreds of operands: run only)
                 minputs.append(model_input(d, o, paths))
                 obs.append((rep, r))
             shutil.rmtree(d, ignore_errors=True)
